@@ -463,6 +463,9 @@ RULES = [
     ("C03-R6", "prefix NOT folding toggles parity and gates the negation", r6),
     ("C03-R7", "infix NOT negates the operator", r7),
     ("C03-R8", "every outcome of a comparison is produced under the dispatch on the operator", lambda ctx: __import__("extra2").comparison_is_operator_dependent(ctx)),
+    ("C12-R3", "each negative text operator is the complement of its positive twin on every scenario (cache hit or miss, wildcard, invalid pattern) [shared with C12]", lambda ctx: __import__("c12").r3(ctx)),
+    ("C02-R3", "every documented operator spelling denotes its operator (Op::from evaluated on all spellings x letter cases) [shared with C02]", lambda ctx: __import__("c02").r3(ctx)),
+    ("X-OPERANDS", "each operand of a comparison is evaluated afresh (no memo shared between operands or conditions: a remembered value comes back as text) [shared]", lambda ctx: __import__("conf").operands_evaluated_afresh(ctx)),
 ]
 
 EXPLANATION = (
